@@ -79,7 +79,7 @@ class nozzle():
 
     def Ptot(self):
         """ """
-        return self._Ptot
+        return self._Pt
 
     def Ps(self):
         """ """
